@@ -42,6 +42,12 @@ var pins = []pin{
 			"INSERT INTO t2 VALUES (1,2,0),(2,3,0)", "INSERT INTO t1 VALUES (1,1,4),(2,3,4),(3,NULL,0)"},
 		"x.id, y.id, z.id FROM t2 x LEFT JOIN t1 y ON x.id = y.b INNER JOIN t2 z ON (x.a = z.a OR x.b = z.b) WHERE x.id IS NULL",
 		config{Name: "hint:JOIN_ORDER(z,x,y)", Hint: "JOIN_ORDER(z,x,y)"}, config{}, []string{}},
+	{"where-or-across-three-tables", "t2 x CROSS JOIN t2 y JOIN t1 z ON y.a = z.a AND y.b = z.b WHERE z.a <=> 3 OR y.b <> x.b: the disjunction is attached to the x-y join although it references z (2 rows, or a field-index error, instead of 6)",
+		[]string{"CREATE TABLE t1 (id INT PRIMARY KEY, a INT, b INT, KEY k0 (a), KEY k5 (b, a))", "CREATE TABLE t2 (id INT PRIMARY KEY, a INT, b INT, KEY k1 (b), KEY k5 (b, a))",
+			"INSERT INTO t1 VALUES (1,NULL,NULL),(2,3,2),(3,NULL,1),(4,3,NULL),(5,3,4),(6,NULL,4),(7,NULL,4),(8,2,0),(9,0,NULL)",
+			"INSERT INTO t2 VALUES (1,1,NULL),(2,1,NULL),(3,3,1),(4,2,5),(5,3,4),(6,NULL,4)"},
+		"x.id, y.id, z.id FROM t2 x CROSS JOIN t2 y INNER JOIN t1 z ON y.a = z.a AND y.b = z.b WHERE z.a <=> 3 OR y.b <> x.b",
+		config{Name: "hint:NO_MERGE_JOIN", Hint: "NO_MERGE_JOIN"}, config{Name: "coster:inner-biased", Coster: memo.NewInnerBiasedCoster}, nil},
 	{"nse-join-transitive-equality", "n1 x JOIN n2 y ON x.a <=> y.a JOIN n3 z ON x.a <=> z.a, each table holding (1,NULL),(2,1): the planner infers y.a = z.a from the two null-safe equalities and loses the all-NULL combination 1|1|1",
 		[]string{"CREATE TABLE n1 (id INT PRIMARY KEY, a INT)", "CREATE TABLE n2 (id INT PRIMARY KEY, a INT)", "CREATE TABLE n3 (id INT PRIMARY KEY, a INT)",
 			"INSERT INTO n1 VALUES (1,NULL),(2,1)", "INSERT INTO n2 VALUES (1,NULL),(2,1)", "INSERT INTO n3 VALUES (1,NULL),(2,1)"},
